@@ -130,8 +130,13 @@ def rtdc_copy(src_h5file: h5py.Group,
                               dst_h5file=dst_h5file,
                               features_iter=feature_iter)
 
-    if feature_iter:
+    if feature_iter or ((isinstance(features, list) or features != "none")
+                        and "events" in src_h5file):
+        # Keep the (possibly empty) "events" group unless no features were
+        # requested: dclab cannot open .rtdc files that do not have it.
         dst_h5file.require_group("events")
+
+    if feature_iter:
         for feat in feature_iter:
             if not feature_exists(feat):
                 continue
